@@ -466,6 +466,7 @@ func TestC02Child(t *testing.T) {
 
 type c02StructCase struct {
 	Form string `json:"form"` // struct | pointer | in-array | in-map
+	Site string `json:"site,omitempty"` // "" (printed by an object) | append | join | conversion-error | include-error | contains
 }
 
 var c02StructPrint = hx.Define("c02.struct-print", func(c *c02StructCase, s *hx.Sub) *hx.Violation {
@@ -482,14 +483,29 @@ var c02StructPrint = hx.Define("c02.struct-print", func(c *c02StructCase, s *hx.
 		}
 		return map[string]any{"v": st}
 	}
-	a, b := mk(), mk()
-	o1 := hx.Render("{{ v }}", a)
-	o2 := hx.Render("{{ v }}", b)
-	if o1.Panic != nil {
-		return hx.V("panic@"+o1.Panic.Site, "{{ v }} (%s): %v", c.Form, o1.Panic)
+	// the places where a value is turned into text: printed, appended, joined, named in an error message
+	src := "{{ v }}"
+	switch c.Site {
+	case "append":
+		src = "{{ 'x' | append: v }}"
+	case "join":
+		src = "{% assign l = 'a,b' | split: ',' | concat: w %}{{ l | join: ',' }}"
+	case "conversion-error":
+		src = "{{ v | plus: 1 }}"
+	case "include-error":
+		src = "{% include v %}"
+	case "contains":
+		src = "{% if 'x{1 7 map[a:1]}' contains v %}T{% else %}F{% endif %}"
 	}
-	if !o1.Same(o2) || o1.Out != o2.Out {
-		return hx.V("c02:address-printed:"+c.Form, "{{ v }} with v a %s holding a pointer renders %q for one copy of the bindings and %q for an equal copy: a memory address is printed", c.Form, o1.Out, o2.Out)
+	a, b := mk(), mk()
+	a["w"], b["w"] = []any{a["v"]}, []any{b["v"]}
+	o1 := hx.Render(src, a)
+	o2 := hx.Render(src, b)
+	if o1.Panic != nil {
+		return hx.V("panic@"+o1.Panic.Site, "%s (%s): %v", src, c.Form, o1.Panic)
+	}
+	if !o1.Same(o2) || o1.Out != o2.Out || (o1.Err != nil && o1.Err.Error() != o2.Err.Error()) {
+		return hx.V("c02:address-printed:"+c.Form+c.Site, "%s with v a %s holding a pointer gives %v for one copy of the bindings and %v for an equal copy: a memory address is printed", src, c.Form, o1, o2)
 	}
 	s.NT()
 	if s.WantSample() {
@@ -613,10 +629,12 @@ func TestC02(t *testing.T) {
 		}
 	})
 
-	sp := c02StructPrint.On(col, "four cases: an object printing a struct with a pointer-typed field, a pointer to it, an array holding it, and a map holding a pointer, each rendered against two equal, separately allocated bindings; oracle: same output. Distinct by construction", true)
+	sp := c02StructPrint.On(col, "24 cases: a struct with a pointer-typed field, a pointer to it, an array holding it, and a map holding a pointer, x the places where a value is turned into text (printed by an object, appended, joined, named in a conversion error, named in include's error, searched for with contains), each rendered against two equal, separately allocated bindings; oracle: same output and same error text. Distinct by construction", true)
 	for i, f := range []string{"struct", "pointer", "in-array", "in-map"} {
-		if env.Mine(i) {
-			sp.Run(&c02StructCase{Form: f})
+		for j, site := range []string{"", "append", "join", "conversion-error", "include-error", "contains"} {
+			if env.Mine(i*8 + j) {
+				sp.Run(&c02StructCase{Form: f, Site: site})
+			}
 		}
 	}
 
